@@ -18,7 +18,7 @@ SOURCES = ['src/dtaidistance/dtw.py', 'src/DTAIDistanceC/DTAIDistanceC/dd_dtw.c'
 FUNCTIONS = ['dtw.warping_path', 'dtw.best_path', 'dtw.best_path2', 'dtw.warp', 'dd_dtw.c dtw_best_path, dtw_best_path_customstart, '
              'dtw_best_path_isclose, dtw_warping_path, dtw_warping_path_ndim (on matrices from dtw_warping_paths_ndim)']
 BOUNDS = {'quick': {'r,c': '1..3 (+ 3x4, 4x3 with window 1 for the C engine)', 'window': 'None,1,2,3', 'penalty': 'None|symbolic',
-                    'psi': 'None, 1, (0,1,0,1), (1,0,1,0)', 'ndim': '1 (C warping_path also 2)'},
+                    'psi': 'None, (1,0,1,0); psi at the end of a series is the region of the known findings F05-*-psi-end', 'ndim': '1'},
           'thorough': {'r,c': '1..4', 'window': 'all', 'penalty': 'None|symbolic', 'psi': 'None, 1, (0,1,0,1), (1,0,1,0), (1,1,0,0)', 'ndim': '1..2'}}
 OUTSIDE = ['dtw_best_path_prob / warping_path_prob (random)', 'floating point rounding', 'which of several optimal paths is returned']
 ASSUMPTIONS = ['path cost oracle = sum of point distances + penalty per non-diagonal step', 'distance oracle = spec_dtw (C01/C02)']
